@@ -43,7 +43,15 @@ def region_next_pastified(case):
     return case["monitor"] == "past" and any(x[0] == "t1" and x[1] in ("next", "snext") for x in F.subformulas(case["f"]))
 
 
-REGIONS = {"pastify-of-next-when-period-is-not-one-default-unit": region_next_pastified}
+def region_shifted_window_pastified(case):
+    """F56: a bounded future operator both of whose bounds are off the sampling grid by the same amount, monitored after
+    pastify() (the pastifier keeps the difference of the bounds only).  The exploration puts only the upper bound off the grid,
+    so no generated case lies in this region; cases built for it carry the mark `shifted`."""
+    return case.get("monitor") == "past" and bool(case.get("shifted"))
+
+
+REGIONS = {"pastify-of-next-when-period-is-not-one-default-unit": region_next_pastified,
+           "pastified-window-with-both-bounds-off-the-grid-by-the-same-amount": region_shifted_window_pastified}
 
 
 def dec(q):
@@ -397,6 +405,10 @@ def replay(ctx, obj):
         b = run_monitor(obj["monitor"], obj["spec_b"], vs, data, obj["n"], *cfg_of(obj["cfg_b"]))
         ok = a[0] == "ok" and b[0] == "ok" and same_vals(a[1], b[1])
         return ok, ("renderings agree" if ok else "renderings with the same durations disagree: %r vs %r" % (a[:2], b[:2]))
+    if obj.get("kind") == "non-multiple-text":
+        data = {k: [float(x) for x in v] for k, v in obj["data"].items()}
+        out = run_monitor(obj["monitor"], obj["spec"], sorted(data), data, obj["n"], *cfg_of(obj["cfg"]))
+        return (out[0] == "rtamt"), "non-multiple bound: outcome %r" % (out[:2],)
     if obj.get("monitor") in ("offc", "onc"):
         from .. import dense
         return dense.replay_units(ctx, obj)
